@@ -554,14 +554,18 @@ def c11_parallel(reqs, shards=None):
     return out
 
 
-def mk_req(expr, inp, fin="yaml", fout="yaml", all_=False, deadline_ms=8000, mem_mb=900):
+def mk_req(expr, inp, fin="yaml", fout="yaml", all_=False, deadline_ms=8000, mem_mb=900, **flags):
+    return dict(flags, **_mk_req(expr, inp, fin, fout, all_, deadline_ms, mem_mb))
+
+
+def _mk_req(expr, inp, fin="yaml", fout="yaml", all_=False, deadline_ms=8000, mem_mb=900):
     return {"op": "c11", "expr_b64": _b64(expr), "input_b64": _b64(inp), "in": fin, "out": fout, "all": bool(all_),
             "c11_deadline_ms": deadline_ms, "c11_mem_mb": mem_mb, "deadline_ms": deadline_ms + 20000}
 
 
 def describe(req):
     return {"kind": "eval", "expr_b64": req["expr_b64"], "input_b64": req["input_b64"], "in": req["in"], "out": req["out"],
-            "all": req["all"], "expr": base64.b64decode(req["expr_b64"]).decode("utf-8", "replace"),
+            "all": req["all"], "flags": {k: req[k] for k in ("nulsep", "unwrap", "nosep", "indent") if k in req}, "expr": base64.b64decode(req["expr_b64"]).decode("utf-8", "replace"),
             "input": base64.b64decode(req["input_b64"]).decode("utf-8", "replace")[:2000]}
 
 
@@ -843,6 +847,13 @@ FMT_EXPRS = [".", ".", ".", "..", ".[]", ".a", "... comments=\"\"", ".. style=\"
              "sort_keys(..)", ".[0]", "keys", "length", "to_json", "@yaml", "[paths]" if False else "[.. | path]", "del(.a)", ".a = 1", ". * {\"a\": 1}"]
 
 
+OUT_VALUES = ["[]\n", "{}\n", "''\n", "~\n", "[{a: 1, b: 2}, {b: 3}]\n", "[{a: 1}, {}]\n", "[{a: 1}, {a: 2, b: 3}]\n", "[{}, {a: 1}]\n", "[{a: 1, b: 2}, {c: 3}]\n",
+              "[{a: 1, b: 2}, 3]\n", "[{a: 1}, [2]]\n", "[{a: 1}, null]\n", "[[1, 2], [3]]\n", "[[], [1]]\n", "[[1], []]\n", "[1, null]\n", "[null]\n", "[[]]\n", "[{}]\n",
+              "{a: null}\n", "{a: [], b: {}}\n", "a: ''\n", "items: []\n", "- {a: {b: 1}, c: 2}\n- {c: 3}\n", "a,b\n", "--- []\n--- {}\n", "[{a: 1, b: 2}, {a: 3, b: 4, c: 5}, {a: 6}]\n"]
+OUT_EXPRS = [".", ".[]", ".[0]", ".a", ".items", ".[1]"]
+OUT_FLAGS = [{}, {"nulsep": True}, {"unwrap": True}, {"nulsep": True, "unwrap": True}, {"nosep": True}, {"indent": 0}, {"indent": 4, "nulsep": True}]
+
+
 def search_cases(chk, thorough):
     rng = chk.rng
     reqs, streams = [], []
@@ -888,6 +899,18 @@ def search_cases(chk, thorough):
             if b is not None:
                 reqs.append(mk_req(".", b, fmt, rng.choice(["yaml", "json"]), False))
                 streams.append("fmt-%s-deep" % fmt)
+    # results that encode to nothing or to ragged rows x every output format x printer flags
+    # (-0/--nul-output, unwrap -r, -N/no separators, indent)
+    for d in OUT_VALUES:
+        for e in OUT_EXPRS:
+            for out in OUT_FORMATS:
+                for fl in OUT_FLAGS:
+                    reqs.append(mk_req(e, d, "yaml", out, False, **fl))
+                    streams.append("out-matrix")
+    for d in OUT_VALUES:
+        for e in ("@csv", "@tsv", "to_csv", "to_tsv", ".[] | @csv", "@json", "to_props", "@xml", "to_yaml", "@sh", "@base64", "@uri", "[.[] | @csv]", "map(@tsv)"):
+            reqs.append(mk_req(e, d, "yaml", "yaml", False))
+            streams.append("out-matrix")
     # every prefix of every fixed sample (an input cut off at any byte, with and without its last newline)
     for fmt in IN_FORMATS:
         seen = set()
@@ -933,7 +956,7 @@ def replay(rp):
     if rp.get("kind") != "eval":
         return False
     req = {"op": "c11", "expr_b64": rp["expr_b64"], "input_b64": rp["input_b64"], "in": rp.get("in", "yaml"), "out": rp.get("out", "yaml"),
-           "all": rp.get("all", False), "c11_deadline_ms": 20000, "c11_mem_mb": 2500, "deadline_ms": 60000}
+           "all": rp.get("all", False), **rp.get("flags", {}), "c11_deadline_ms": 20000, "c11_mem_mb": 2500, "deadline_ms": 60000}
     r = c11_batch([req])[0]
     return (r or {}).get("class") in ("ok", "err")
 
